@@ -720,6 +720,7 @@ func buffersAreFreedAfterTheWrite(c *kit.Ctx) {
 		c.OK(send, "freed-after-write", send.Pos(), "send frees no pooled buffer")
 	}
 	pooledObjectsAreReturnedOnce(c)
+	returnedBuffersAreNotFreed(c)
 }
 
 // requestsAreMarshalledWithRequiredFields: no proto.MarshalOptions value of the module sets AllowPartial: with it a
